@@ -12,6 +12,8 @@ mod pool_cell;
 mod process;
 pub mod service;
 mod util;
+#[cfg(feature = "verif-hooks")]
+pub mod verif;
 mod verify_mgr;
 
 pub use ckb_jsonrpc_types::BlockTemplate;
